@@ -154,6 +154,8 @@ def _run_shard(args):
     t0 = time.time()
     acc = mod.run_shard(shard)
     acc.extra['shard_s'] += time.time() - t0
+    for v in acc.viol:
+        v.setdefault('shard', shard)
     return acc
 
 
@@ -224,6 +226,9 @@ def write_replay(prop_id, v, snippet):
     rec = {'property': prop_id, 'sub': v['sub'], 'case': jsonable(v['case']),
            'expected': jsonable(v['expected']), 'observed': jsonable(v['observed']),
            'msg': v.get('msg', ''), 'code_under_test': repo_state(), 'snippet': snippet}
+    if v.get('history_dependent'):
+        rec['history_dependent'] = True
+        rec['shard'] = jsonable(v.get('shard'))
     dig = hashlib.blake2b(json.dumps([rec['sub'], rec['case']], sort_keys=True).encode(),
                           digest_size=6).hexdigest()
     path = os.path.join(REPLAY_DIR, '%s-%s.json' % (prop_id, dig))
@@ -265,8 +270,15 @@ def finish(mod, tier, total, coverage, t0, assumptions):
             r = mod.replay(v['case'])
             obs.append(sorted((x['sub'], repr(x['observed'])) for x in r))
         if obs[0] != obs[1] or (v['sub'], repr(v['observed'])) not in obs[0]:
-            raise HarnessError('nondeterministic replay for %s %r: worker saw %r, replays saw %r / %r'
-                               % (prop_id, v['case'], (v['sub'], v['observed']), obs[0], obs[1]))
+            # not reproducible in isolation: either the harness is nondeterministic, or the code under test
+            # carries state from one call to the next.  Decide by re-running the whole shard (the exact call
+            # history of the worker) twice in fresh processes.
+            if v.get('shard') is None or not shard_reproduces(mod, v):
+                raise HarnessError('nondeterministic replay for %s %r: worker saw %r, replays saw %r / %r'
+                                   % (prop_id, v['case'], (v['sub'], v['observed']), obs[0], obs[1]))
+            v['history_dependent'] = True
+            v['msg'] = (v.get('msg', '') + ' [history-dependent: fails only after the calls made earlier in the same '
+                        'process; replay re-runs the shard]').strip()
         reported.append(v)
     for fid, (n, sz, ex) in sorted(total.known.items()):
         print('KNOWN-FINDING: property=%s %s: %s (%d cases in this run, e.g. %s)' % (
@@ -296,6 +308,19 @@ def finish(mod, tier, total, coverage, t0, assumptions):
     if total.hist:
         print('    outcomes: %s' % dict(total.hist.most_common(12)))
     return 1 if total.nviol else 0
+
+
+def shard_reproduces(mod, v):
+    """Run the violation's shard twice in fresh interpreters; True iff both report the same (sub, case)."""
+    import subprocess
+    want = [v['sub'], jsonable(v['case'])]
+    for _ in range(2):
+        r = subprocess.run([os.path.join(VERIF, 'check'), mod.ID, '--replay-shard', json.dumps(v['shard'])],
+                           capture_output=True, text=True)
+        hits = [json.loads(l[6:]) for l in r.stdout.splitlines() if l.startswith('SHARD ')]
+        if want not in [[h['sub'], h['case']] for h in hits]:
+            return False
+    return True
 
 
 def known_desc(prop_id, fid):
